@@ -15,7 +15,8 @@ def exactsum(l,s,i=0,r=None):
         r.append(l[i]) #lgtm [py/modification-of-default-value]
         return True if i else r
     else:
-        return exactsum(l,s,i+1,r)
+        found = exactsum(l,s,i+1,r)
+        return r if (found and i==0) else found
 
 # a simple version of dynamic programming method
 # to find a minimal-length list of couples from l
